@@ -957,6 +957,105 @@ func main() {
 			})
 			t.Outcome("exact")
 		})
+
+		// Fragmented messages that outgrow what the collecting helpers are willing to reserve up
+		// front (1 MiB): whatever the sizes of the fragments before and after that point - a
+		// further header arriving when more than the limit has been collected, empty fragments,
+		// pings in between - every helper returns the message, no panic.
+		r.Part("E8-large-fragmented-messages-through-the-collecting-helpers", func(t *explore.T) {
+			const M = 1 << 20
+			shapes := [][]int{
+				{M + 1, 1, 3}, {M, 0, 1}, {M - 1, 1, 1, 1}, {600 << 10, 600 << 10, 600 << 10}, {1, M, 1, M, 1},
+				{M + 1, 0}, {0, M + 1, 0, 1}, {2*M + 5, 7}, {100, 2 * M}, {M / 2, M / 2, M / 2, 1},
+			}
+			entries := []string{"ReadMessage", "ReadClientMessage", "ReadClientData", "ReadData", "ReadClientBinary", "NextReader+ReadAll", "Reader+io.Copy"}
+			t.Par(len(shapes), func(si int) {
+				shape := shapes[si]
+				var payload, wire []byte
+				for fi, n := range shape {
+					part := make([]byte, n)
+					for i := range part {
+						part[i] = byte(i*7 + i>>10 + fi + 1)
+					}
+					payload = append(payload, part...)
+					op := byte(0)
+					if fi == 0 {
+						op = 2
+					}
+					wire = append(wire, refmodel.Frame{H: refmodel.Hdr{Fin: fi == len(shape)-1, Op: op, Masked: true, Mask: [4]byte{0x11, 0x22, 0x33, byte(fi)}}, Payload: part}.Wire()...)
+					if fi%2 == 0 && fi != len(shape)-1 {
+						wire = append(wire, refmodel.Frame{H: refmodel.Hdr{Fin: true, Op: 9, Masked: true, Mask: [4]byte{9, 9, 9, 9}}, Payload: []byte("pi")}.Wire()...)
+					}
+				}
+				for _, entry := range entries {
+					for _, chunk := range []int{0, 65536} {
+						entry, chunk := entry, chunk
+						t.Do(func() string {
+							return fmt.Sprintf("masked binary message in fragments of %v bytes (a ping behind every other one) through %s, transport chunk=%d", shape, entry, chunk)
+						}, func() (fail *explore.Fail) {
+							defer func() {
+								if r := recover(); r != nil {
+									fail = explore.Failf("panic:"+entry, "%v", r)
+								}
+							}()
+							src := env.NewSrc(wire)
+							src.Policy = env.FixedChunk(chunk)
+							rw := env.RW{Reader: src, Writer: io.Discard}
+							var got []byte
+							var err error
+							switch entry {
+							case "ReadMessage":
+								var ms []wsutil.Message
+								for err == nil && (len(ms) == 0 || ms[len(ms)-1].OpCode.IsControl()) {
+									ms, err = wsutil.ReadMessage(src, ws.StateServerSide, ms)
+								}
+								if err == nil {
+									got = ms[len(ms)-1].Payload
+								}
+							case "ReadClientMessage":
+								var ms []wsutil.Message
+								for err == nil && (len(ms) == 0 || ms[len(ms)-1].OpCode.IsControl()) {
+									ms, err = wsutil.ReadClientMessage(src, ms)
+								}
+								if err == nil {
+									got = ms[len(ms)-1].Payload
+								}
+							case "ReadClientData":
+								got, _, err = wsutil.ReadClientData(rw)
+							case "ReadData":
+								got, _, err = wsutil.ReadData(rw, ws.StateServerSide)
+							case "ReadClientBinary":
+								got, err = wsutil.ReadClientBinary(rw)
+							case "NextReader+ReadAll":
+								var rd io.Reader
+								_, rd, err = wsutil.NextReader(src, ws.StateServerSide)
+								if err == nil {
+									got, err = io.ReadAll(rd)
+								}
+							default:
+								rd := &wsutil.Reader{Source: src, State: ws.StateServerSide, OnIntermediate: func(h ws.Header, r io.Reader) error {
+									_, e := io.Copy(io.Discard, r)
+									return e
+								}}
+								if _, err = rd.NextFrame(); err == nil {
+									var b bytes.Buffer
+									_, err = io.Copy(&b, rd)
+									got = b.Bytes()
+								}
+							}
+							if err != nil {
+								return explore.Failf("large-fragmented-message-refused:"+entry, "%v", err)
+							}
+							if !bytes.Equal(got, payload) {
+								return explore.Failf("large-fragmented-message-differs:"+entry, "%d bytes returned of %d, first difference at %d", len(got), len(payload), firstDiffAt(got, payload))
+							}
+							return nil
+						})
+					}
+				}
+			})
+			t.Outcome("exact")
+		})
 	})
 }
 
